@@ -422,7 +422,7 @@ let run_monitor infile outfile =
            (match g.g_panic with
             | Some p -> fail := Some (Printf.sprintf "event=%d reason=implementation-panic | %s %d %s | %s" !idx g.g_kind g.g_id (String.concat " " g.g_args) p); raise Exit
             | None -> ());
-           let obs = match g.g_st with Some t -> snd (proj_of_tokens (strip_cfg t)) | None -> failwith "missing ST" in
+           let obs = match g.g_st with Some t -> snd (proj_of_tokens (List.map (fun x -> if x = "Q" then "C" else x) (strip_cfg t))) | None -> failwith "missing ST" in
            let idn = nat_of_int g.g_id in
            let old_n = arr.(g.g_id) in
            let new_n = nstate_of_proj obs in
